@@ -1468,6 +1468,10 @@ int64_t timed_block_latest_deadline()
 {
     return tl_self->tb_latest_deadline;
 }
+uint64_t last_cond_reacquire_seq()
+{
+    return tl_self->cond_reacquire_step;
+}
 void timed_block_reset()
 {
     tl_self->tb_max_ns = -1;
